@@ -117,6 +117,7 @@ def strategy_(draw, tier):
     reqs = draw(strat.requests(size, csz, count=6, points=pts, whole_limit=4 << 20))
     spec["via_minimal"] = draw(strat.minimal_handle())
     spec["fault"] = draw(strat.fault())
+    spec["flavours"] = draw(st.booleans())
     if kind != "hds":
         # how the descriptor names the image file: a bare name, a relative path with a directory part (inside the bundle, or a
         # sibling bundle), a name in decomposed Unicode form (stored under exactly that name)
@@ -152,7 +153,9 @@ def nontrivial(spec) -> bool:
 
 def scratch_dir():
     root = os.environ.get("VERIF_SCRATCH") or ("/dev/shm" if os.path.isdir("/dev/shm") else None)
-    return tempfile.mkdtemp(prefix="c06-", dir=root)
+    from hv.core import case_dir
+
+    return case_dir("c06", root)
 
 
 def check(spec) -> Outcome:
@@ -230,13 +233,21 @@ def check(spec) -> Outcome:
             "shots": [{"guid": bhdd.DEFAULT_TOP, "parent": bhdd.NULL_GUID}]}
         with open(os.path.join(hdd_dir, "DiskDescriptor.xml"), "w", encoding="utf-8") as f:
             f.write(bhdd.descriptor_xml(desc))
-        stream, err = lib(lambda: HDD(Path(hdd_dir)).open())
+        hdd_obj, err = lib(HDD, Path(hdd_dir))
+        stream = None
+        if not err:
+            stream, err = lib(hdd_obj.open)
         if err:
             out.fail(err.sig(tag + "-open"), f"HDD().open() raised {err.describe()}")
             return out
         if stream.size != size:
             out.fail(f"mismatch|{tag}-size", f"size {stream.size} != {size}")
-        check_reads(out, stream, lay, spec["requests"], tag)
+        check_reads(out, stream, lay, spec["requests"][:2], tag)
+        # a later open() on the same HDD object that fails (a snapshot id the descriptor does not know) is the caller's problem;
+        # the stream handed out before keeps working
+        _v, err2 = lib(hdd_obj.open, "{5fbaabe3-6958-40ff-92a7-860e329aab99}")
+        out.cls("failed-open-in-between" if err2 else "bogus-guid-accepted")
+        check_reads(out, stream, lay, spec["requests"][2:], tag + ("-after-failed-open" if err2 else ""))
         for _, st_fh in getattr(stream, "streams", []):
             f = getattr(st_fh, "fh", st_fh)
             if hasattr(f, "close"):
